@@ -47,7 +47,7 @@ fn read_msg<R: std::io::BufRead + std::fmt::Debug + Send>(cfg: Cfg, pk: &SignedP
         let m0 = if cfg.armor { Message::from_armor(src).map(|x| x.0).map_err(|e| e.to_string())? } else { Message::from_bytes(src).map_err(|e| e.to_string())? };
         let m1 = if cfg.enc != 0 { m0.decrypt_with_password(&"pw".into()).map_err(|e| e.to_string())? } else { m0 };
         let mut m2 = if m1.is_compressed() { m1.decompress().map_err(|e| e.to_string())? } else { m1 };
-        let (out, res) = match consumer { 0 => consume_to_end(&mut m2), 1 => consume_read(&mut m2, reqs), _ => consume_bufread(BufReader::with_capacity(1 + reqs.first().copied().unwrap_or(7), &mut m2), reqs) };
+        let (out, res) = match consumer { 0 => consume_to_end(&mut m2), 1 => consume_read(&mut m2, reqs), 3 => consume_read_with_empty(&mut m2, reqs), _ => consume_bufread(BufReader::with_capacity(1 + reqs.first().copied().unwrap_or(7), &mut m2), reqs) };
         got = out.len();
         res?;
         let sig = if cfg.sign { m2.verify(pk).is_ok() } else { true };
@@ -180,7 +180,7 @@ fn main() {
             }
             // 2b. reader: source schedule x consumer kind x request sizes: identical payload and verdict
             let reads: Vec<(Vec<usize>, u8, Vec<usize>)> = {
-                let mut v = vec![(vec![], 0u8, vec![]), (vec![1], 0, vec![]), (vec![1], 1, vec![1]), (vec![3, 1], 1, vec![7]), (vec![], 1, vec![1]), (vec![64, 1], 2, vec![5, 1]), (vec![1], 2, vec![1]), (vec![513], 1, vec![4096])];
+                let mut v = vec![(vec![], 0u8, vec![]), (vec![1], 0, vec![]), (vec![1], 1, vec![1]), (vec![3, 1], 1, vec![7]), (vec![], 1, vec![1]), (vec![64, 1], 2, vec![5, 1]), (vec![1], 2, vec![1]), (vec![513], 1, vec![4096]), (vec![], 3, vec![100]), (vec![1], 3, vec![1]), (vec![64, 1], 3, vec![4096, 3])];
                 for _ in 0..(if thorough { 8 } else { 2 }) { v.push((cx.rng.composition(60), cx.rng.below(3) as u8, cx.rng.composition(30))); }
                 v
             };
